@@ -45,7 +45,7 @@ MaxTimeLockC == 34560    \* types.MaxTimeLock (params validation)
 NoEv == [name |-> "Init", who |-> "", id |-> "", to |-> "", amt |-> EmptyF,
          sec |-> "", lts |-> 0, ts |-> 0, lock |-> 0, transfer |-> FALSE,
          dt |-> 0, n |-> 0, params |-> EmptyF,
-         ok |-> TRUE, panic |-> FALSE, halt |-> FALSE]
+         ok |-> TRUE, panic |-> FALSE, halt |-> FALSE, form |-> ""]
 
 BlockEvents == {"BeginBlock", "Skip"}
 MsgEvents == {"Create", "Claim", "UpdateParams"}
@@ -758,6 +758,13 @@ ParamsTwo == ("htlttwo" :> AP(5, TRUE, 2, 3, 1, 3, 1))
 ParamsOff == ("htltone" :> APx(4, FALSE, "dep", 0, 1, 3, 1, 2)) @@ ("htlttwo" :> AP(5, TRUE, 2, 3, 1, 3, 1))
 ParamsTight == ("htltone" :> APx(4, TRUE, "u2", 1, 2, 2, 2, 2)) @@ ("htlttwo" :> AP(5, TRUE, 2, 3, 1, 3, 1))
 ParamAltsAll == {ParamsA, ParamsB, ParamsC, ParamsD, ParamsBad, ParamsOff, ParamsTight}
+(* probe generator: every asset state a transfer in flight can meet -- all
+   assets delisted (the window bookkeeping stops) and listed again with other
+   limits, time-limited <-> not, the module account / a blocked account as
+   deputy (nobody can then open a transfer of that asset) *)
+ParamsSwapTL == ("htltone" :> AP(3, TRUE, 3, 2, 1, 3, 0)) @@ ("htlttwo" :> AP(6, FALSE, 0, 0, 1, 3, 1))
+ParamsDepMod == ("htltone" :> APx(4, TRUE, MOD, 0, 1, 3, 1, 2)) @@ ("htlttwo" :> [AP(5, TRUE, 2, 3, 1, 3, 1) EXCEPT !.deputy = "blk"])
+ParamAltsProbe == ParamAltsAll \cup {NoParams, ParamsSwapTL, ParamsDepMod, ParamsOne}
 ParamAltsFew == {ParamsB, ParamsC}
 ParamAltsOne == {("htltone" :> AP(2, FALSE, 0, 0, 1, 3, 0)), NoParams}
 ParamAltsTwo == {ParamsTwo, ("htlttwo" :> AP(3, TRUE, 3, 2, 1, 3, 1)), <<>>}
@@ -853,6 +860,85 @@ GenDepth == atoi(IOEnv.GEN_DEPTH)
 GenConstraint ==
   /\ Len(hist) <= GenDepth
   /\ (Len(hist) = GenDepth) => PrintT(<<"BEHAVIOUR", ToJson(hist)>>)
+
+(***************************************************************************)
+(* Negative probing (second generator mode).  Unusual inputs the harness   *)
+(* manufactures from the event's `form` (hashing and hex stay outside      *)
+(* TLA+); the specification only says what they MEAN:                      *)
+(*   idupper / secupper  the id / the secret in upper-case hex: the same   *)
+(*                       bytes, hence the same contract / the same secret  *)
+(*   idhl   id := the hash lock of contract i  (event id "hl:i")           *)
+(*   idpre  id := the first half of i's id, zero padded (event id "pre:i") *)
+(*   idrev  id := i's id with its two halves swapped    (event id "rev:i") *)
+(*          -- three ids of the right shape that are nobody's id: unknown  *)
+(*   sechl  secret := the hash lock of contract i (event sec "hl:i")       *)
+(*   secid  secret := the id of contract i        (event sec "id:i")       *)
+(*          -- two 32-byte values that are nobody's secret: wrong secret   *)
+(* and creates with coins of the wrong kind: a transfer in an ordinary     *)
+(* denom, in denoms SHAPED like an asset denom that are no assets (an      *)
+(* asset denom plus a letter, a prefix of one, one in upper case), with    *)
+(* two coins, with a zero coin; an ordinary contract in a shaped denom.    *)
+(***************************************************************************)
+ShapedDenoms == {"htltonex", "htlton", "HTLTONE"}
+IdForms == [idhl |-> "hl:", idpre |-> "pre:", idrev |-> "rev:"]
+SecForms == [sechl |-> "hl:", secid |-> "id:"]
+
+TplTPlain   == TP("q1", "u1", "dep", ("aaa" :> 1), "s5", T0, T0, TRUE)        \* transfer in an ordinary denom
+TplTPlainIn == TP("q2", "dep", "u1", ("bbb" :> 2), "s3", T0, T0, TRUE)
+TplTShaped  == TP("q3", "u1", "dep", ("htltonex" :> 1), "s5", T0, T0, TRUE)   \* asset denom + a letter
+TplTPrefix  == TP("q4", "dep", "u2", ("htlton" :> 2), "s4", T0, T0, TRUE)     \* prefix of an asset denom
+TplTCase    == TP("q5", "u2", "dep", ("HTLTONE" :> 1), "s8", T0, T0, TRUE)    \* asset denom in upper case
+TplTTwo     == TP("q6", "u1", "dep", ("htltone" :> 1) @@ ("aaa" :> 1), "s5", T0, T0, TRUE)
+TplZero     == TP("q7", "u1", "u2", ("aaa" :> 0), "s2", T0, T0, FALSE)
+TplShapedPlain == TP("q8", "u1", "u2", ("htltonex" :> 1) @@ ("HTLTONE" :> 2), "s1", T0, T0, FALSE)
+TplToSelfT  == TP("q9", "dep", "dep", ("htltone" :> 1), "s3", T0, T0, TRUE)   \* deputy on both sides
+ProbeTemplates == {TplTPlain, TplTPlainIn, TplTShaped, TplTPrefix, TplTCase, TplTTwo, TplZero,
+                   TplShapedPlain, TplToSelfT}
+
+ProbeCreate ==
+  /\ st.inBlock
+  /\ \E tp \in ProbeTemplates, k \in Locks \ {0} :
+       Step([NoEv EXCEPT !.name = "Create", !.who = tp.sender, !.id = tp.id, !.to = tp.to,
+                         !.amt = tp.amt, !.sec = tp.sec, !.lts = tp.lts, !.ts = tp.ts,
+                         !.lock = k, !.transfer = tp.transfer])
+(* a re-creation with the transfer flag flipped and another time lock: the id
+   does not depend on either, so it still exists *)
+ProbeRecreate ==
+  /\ st.inBlock
+  /\ \E i \in DOMAIN st.htlc, k \in Locks \ {0} :
+       LET c == st.htlc[i] IN
+       Step([NoEv EXCEPT !.name = "Create", !.who = c.sender, !.id = i, !.to = c.to, !.amt = c.amt,
+                         !.sec = c.sec, !.lts = c.lts, !.ts = c.ts, !.lock = k,
+                         !.transfer = IF Cardinality(DOMAIN c.amt) = 1 THEN ~c.transfer ELSE c.transfer,
+                         !.form = "recreate"])
+ProbeClaim ==
+  /\ st.inBlock
+  /\ \E who \in Claimants, i \in DOMAIN st.htlc :
+       \/ \E f \in DOMAIN IdForms :
+            Step([NoEv EXCEPT !.name = "Claim", !.who = who, !.id = IdForms[f] \o i,
+                              !.sec = st.htlc[i].sec, !.form = f])
+       \/ \E f \in DOMAIN SecForms :
+            Step([NoEv EXCEPT !.name = "Claim", !.who = who, !.id = i,
+                              !.sec = SecForms[f] \o i, !.form = f])
+       \/ \E f \in {"idupper", "secupper"} :
+            Step([NoEv EXCEPT !.name = "Claim", !.who = who, !.id = i,
+                              !.sec = st.htlc[i].sec, !.form = f])
+
+NextP == Next \/ ProbeCreate \/ ProbeRecreate \/ ProbeClaim
+
+(* like GenNext, but every behaviour ends with ProbeLen events the
+   specification REJECTS (a block is opened first if none is open): a deep
+   state probed with operations that must fail.  Rejections for a time lock
+   outside the message-level range say nothing about the state and are left
+   to the first mode. *)
+ProbeLen == 4
+GenNextP ==
+  /\ NextP
+  /\ IF Len(hist) < GenDepth - ProbeLen
+     THEN ev'.ok \/ Rejects(hist) < 5
+     ELSE \/ ~ev'.ok /\ Apply(st, ev').why # "basic_lock"
+          \/ ~st.inBlock /\ ev'.name = "BeginBlock"
+GenSpecP == Init /\ [][GenNextP]_vars
 
 -----------------------------------------------------------------------------
 (* Clauses in checkable form *)
